@@ -477,3 +477,50 @@ Section PypeSkeleton.
         cbv beta iota; exn_simp; simpl; destruct (pa_raise pa); reflexivity.
   Qed.
 End PypeSkeleton.
+
+(** * pypyr/utils/poll.py :: while_until_true — when the runner sleeps and when it gives up *)
+Section PollSkeleton.
+  Variable iter : Z -> st -> iter_result * st.
+  Variable interval : nat -> option Q.
+  Variable max : option Z.
+
+  Lemma gen_sleep_looper_loop_is_model fuel i b c s :
+    gen_sleep_looper_loop iter (fun i => interval (Z.to_nat i)) c max fuel i b true s
+    = poll fuel iter interval max i s.
+  Proof.
+    revert i b s. induction fuel as [|f IH]; intros i b s; [reflexivity|].
+    cbn [gen_sleep_looper_loop poll]. cbv zeta.
+    destruct (iter (i + 1)%Z s) as [[[|]|o] s1]; try reflexivity.
+    destruct (interval (Z.to_nat (i + 1))) as [d|]; [|reflexivity].
+    destruct max as [m|].
+    - destruct (Z.eqb m 0); simpl negb; cbv iota; [apply IH|].
+      destruct (Z.ltb (i + 1) m); [apply IH|reflexivity].
+    - apply IH.
+  Qed.
+
+  (** the whole poll, as the retry and while decorators call it (a callable interval; a plain
+      number is the constant function) *)
+  Lemma gen_sleep_looper_is_model fuel c s :
+    gen_sleep_looper iter true (fun i => interval (Z.to_nat i)) c max fuel s
+    = poll fuel iter interval max 0 s.
+  Proof. unfold gen_sleep_looper. apply gen_sleep_looper_loop_is_model. Qed.
+
+  Lemma gen_sleep_looper_loop_const_is_model fuel i b d s :
+    (forall n, interval n = d) ->
+    gen_sleep_looper_loop iter (fun _ => None) d max fuel i b false s = poll fuel iter interval max i s.
+  Proof.
+    intros Hd. revert i b s. induction fuel as [|f IH]; intros i b s; [reflexivity|].
+    cbn [gen_sleep_looper_loop poll]. cbv zeta.
+    destruct (iter (i + 1)%Z s) as [[[|]|o] s1]; try reflexivity.
+    rewrite Hd. destruct d as [q|]; [|reflexivity].
+    destruct max as [m|].
+    - destruct (Z.eqb m 0); simpl negb; cbv iota; [apply IH|].
+      destruct (Z.ltb (i + 1) m); [apply IH|reflexivity].
+    - apply IH.
+  Qed.
+
+  Lemma gen_sleep_looper_const_is_model fuel d s :
+    (forall n, interval n = d) ->
+    gen_sleep_looper iter false (fun _ => None) d max fuel s = poll fuel iter interval max 0 s.
+  Proof. intros Hd. unfold gen_sleep_looper. now apply gen_sleep_looper_loop_const_is_model. Qed.
+End PollSkeleton.
